@@ -591,6 +591,52 @@ Section StreamProofs.
   Qed.
 
 
+  (* ---------------------------------------------------------------- termination on ARBITRARY input *)
+  (* without any condition on the padding: a Read reports an end, or what is left shrinks *)
+  Lemma dec_read0_progress : forall n d, cinv d -> (1 <= n)%nat ->
+    let '((b, e), d') := dec_read0 n d in
+    match e with
+    | None => cinv d' /\ (meas d' < meas d)%nat
+    | Some _ => True
+    end.
+  Proof.
+    intros n [c p] (C1 & C2 & C3 & C4) Hn. unfold dec_read0, meas, rem in *. cbn [d_c d_p] in *.
+    destruct (c_out c) as [|x out] eqn:O.
+    - rewrite C1.
+      pose proof (refill_spec 4 (clamp_nn n) (c_nbuf c) p ltac:(lia) (proj1 (clamp_ge4 n)) C4) as R.
+      rewrite C2. destruct (refill 4 (clamp_nn n) (c_nbuf c) None p) as [[nbuf rerr] p'].
+      destruct R as (R1 & R2 & R3 & R4 & R5). rewrite <- R1.
+      destruct R5 as [(L & ->) | (L & -> & Ch & Ret)].
+      + replace (Nat.ltb (List.length nbuf) 4) with false by (symmetry; apply Nat.ltb_ge; exact L).
+        destruct (div4 (List.length nbuf)) as (k & K1 & K2 & K3 & K4).
+        set (nr := (List.length nbuf / 4 * 4)%nat) in *.
+        assert (Hcl : List.length (firstn nr nbuf) = (4 * k)%nat) by (rewrite firstn_length; lia).
+        pose proof (b64_chunk_len k (firstn nr nbuf) Hcl) as Ln.
+        destruct (b64_chunk (firstn nr nbuf)) as [data bad]. cbn [fst] in Ln.
+        assert (Lsk : (List.length (skipn nr nbuf) < 4)%nat) by (rewrite skipn_length; lia).
+        assert (Hk : (1 <= k)%nat) by lia.
+        assert (Hnb : List.length nbuf = (4 * k + List.length (skipn nr nbuf))%nat) by (rewrite skipn_length; lia).
+        destruct bad; destruct (Nat.ltb n (nr / 4 * 3)); cbn [d_c d_p c_out c_err c_rerr c_nbuf]; try exact I.
+        * split; [repeat split; assumption|]. rewrite !app_length, (skipn_length n data), Hnb. cbn [List.length]. lia.
+        * split; [repeat split; assumption|]. rewrite !app_length, Hnb. cbn [List.length]. lia.
+      + replace (Nat.ltb (List.length nbuf) 4) with true by (symmetry; apply Nat.ltb_lt; exact L). exact I.
+    - cbn [d_c d_p c_out c_err c_rerr c_nbuf]. split; [repeat split; assumption|].
+      assert (List.length (skipn n (x :: out)) < List.length (x :: out))%nat.
+      { rewrite skipn_length. cbn [List.length]. lia. }
+      lia.
+  Qed.
+
+  Lemma read_all0_total : forall fuel sz i d acc,
+    (forall j, (1 <= sz j)%nat) -> cinv d -> (meas d < fuel)%nat ->
+    exists b e d', read_all T dec_read0 fuel sz i d acc = (b, Some e, d').
+  Proof.
+    induction fuel as [|fuel IH]; intros sz i d acc Hsz Hc Hm; [lia|].
+    cbn [read_all]. pose proof (dec_read0_progress (sz i) d Hc (Hsz i)) as S.
+    destruct (dec_read0 (sz i) d) as [[b e] d1]. destruct e as [e|].
+    - eexists _, _, _. reflexivity.
+    - destruct S as [S1 S2]. apply IH; [exact Hsz|exact S1|lia].
+  Qed.
+
   (* ---------------------------------------------------------------- the fix: close the pipe on error *)
   Lemma p_close_returned : forall e p, returned (p_close e p).
   Proof.
@@ -682,6 +728,32 @@ Section StreamProofs.
       + cbn [s_data s_end]. split; [reflexivity|]. exists (fst (b64_decode_seq (w ++ chars f))). reflexivity.
     - destruct R as (p1 & R1 & _). rewrite R1. cbn [chars fend]. unfold decode_result.
       destruct e as [|e]; cbn [s_data s_end]; (split; [reflexivity|]); exists (fst (b64_decode_seq (tl []))); reflexivity.
+  Qed.
+
+  (* arbitrary documents (any padding): the caller's loop ends, after at most one Read per character that
+     reached the pipe *)
+  Theorem stream_decode_total : forall chunks sz fuel,
+    (forall j, (1 <= sz j)%nat) ->
+    (List.length (chars (events_of false tinit (List.concat chunks))) < fuel)%nat ->
+    s_end (stream_decode T tinit tfeed tfin chunks sz fuel) <> None.
+  Proof.
+    intros chunks sz fuel Hsz Hf. unfold stream_decode, stream_decode_with, dec_new.
+    pose proof (pipe_read_spec 1 (p_init T tinit chunks)) as R. rewrite future_init in R.
+    pose proof (events_wne false tinit (List.concat chunks)) as W.
+    destruct (events_of false tinit (List.concat chunks)) as [|[w|e] f] eqn:EF; [destruct R| |].
+    - destruct R as (p1 & R1 & R2). rewrite R1. inversion W as [|? ? Hw Wf]; subst.
+      destruct w as [|v w]; [congruence|]. cbn [firstn chars] in *.
+      destruct (v =? VERSION); [|cbn; discriminate].
+      set (d0 := {| d_c := cons0; d_p := p1 |}).
+      assert (Hc : cinv d0).
+      { unfold cinv, d0. cbn [d_c d_p cons0 c_err c_rerr c_nbuf List.length]. repeat split; try lia.
+        rewrite R2. cbn [skipn]. destruct w; [exact Wf|]. constructor; [discriminate|exact Wf]. }
+      assert (Hm : (meas d0 < fuel)%nat).
+      { unfold meas, rem, d0. cbn [d_c d_p cons0 c_out c_nbuf List.length app]. rewrite R2. cbn [skipn].
+        cbn [app List.length] in Hf. rewrite app_length in Hf. destruct w; cbn [chars]; rewrite ?app_length; cbn [List.length] in *; lia. }
+      destruct (read_all0_total fuel sz O d0 [] Hsz Hc Hm) as (b & e & d' & A).
+      destruct (read_all_fixed _ _ _ _ _ _ _ _ A) as (d'' & A' & _). fold d0. rewrite A'. cbn. discriminate.
+    - destruct R as (p1 & R1 & _). rewrite R1. destruct e; cbn; discriminate.
   Qed.
 
   Theorem stream_decode_spec : forall chunks sz fuel,
